@@ -2,10 +2,9 @@ import Driver.Proto
 import Driver.C16
 import Driver.C16Mon
 
-def suites : List (String × Driver.Suite) := [
-  ("c16", Driver.C16.suite),
-  ("c16mon", Driver.C16Mon.suite)
-]
+def suites : List (String × Driver.Suite) :=
+  Driver.C16.suites ++
+  Driver.C16Mon.suites
 
 def main (args : List String) : IO UInt32 := do
   match args with
